@@ -32,7 +32,10 @@ def run(tier):
              'over up to three rounds with retry exhaustion, on the dict, pickling-dict, disk, redis-double and '
              'cloud-double backends (DFS over outcome choices); schedules of concurrently queued messages over a '
              'yielding store (DFS + random walks); every run is driven to completion and checked at every quiescent '
-             'point and at the end; non-trivial = at least one failed or partial attempt',
+             'point and at the end; family realrelay: the repository\'s own StaticSmtpRelay / StaticLmtpRelay (22 downstream '
+             'connection scripts for the first and second connection, PIPELINING on/off) and per-recipient PipeRelay (real child '
+             'processes per recipient: exit 0, 4.x.x, 5.x.x, or outliving the timeout) between the queue and the downstream, the '
+             'relay result recorded as it reaches the queue; non-trivial = at least one failed or partial attempt',
         trigger=lambda tr: any(e['t'] == 'att_end' and (e['temp'] or e['perm']) for e in tr['ev']),
         text_assumptions=['backoff policies are finite tables ending in None so that every run can be drained'])
 
